@@ -157,7 +157,12 @@ def cases(tier: str, base_seed: int):  # noqa: ANN201
                 {"kind": "exit_wants_tunnels"}, {"kind": "chatty_outside", "every": rng.choice([3.0, 5.0, 15.0])},
                 {"kind": "hop_wants_tunnels", "node": rng.choice(["exit", "hop1"]), "t": rng.choice([0.3, 1.0, 2.5, 4.0])},
                 {"kind": "stall", "node": rng.choice(["hop1", "exit"]), "t": rng.choice([0.5, 3.0]), "d": rng.choice([2.0, 30.0])}]))
-        yield {"seed": seed, "cfg": cfg, "extra": extra,
+        tune = {}
+        if rng.random() < 0.4:
+            tune = {"remove_tunnel_delay": rng.choice([0, 1, 5, 12]), "max_time_inactive": rng.choice([8, 20, 45]),
+                    "next_hop_timeout": rng.choice([2, 5, 10]), "unstable_timeout": rng.choice([5, 60]),
+                    "circuit_timeout": rng.choice([20, 60])}
+        yield {"seed": seed, "cfg": cfg, "extra": extra, "settings": tune,
                "knobs": {"lat_jit": rng.choice([0.0, 0.05, 0.3]), "loss": rng.choice([0.0, 0.1, 0.3]), "dup": rng.choice([0.0, 0.1]),
                          "timer_jitter": rng.choice([0.0, 0.05])},
                "drops": []}
@@ -183,6 +188,8 @@ def execute(case: dict) -> dict:  # noqa: C901, PLR0915
     bad_answer = next((int(e.get("n", 99)) for e in extra if e["kind"] == "bad_answer"), 0)
     if early_data:
         settings["next_hop_timeout"] = 3
+    # tuning knobs of the library, varied per run (the reclamation bound below is computed from the settings in force)
+    settings.update({k2: v2 for k2, v2 in (case.get("settings") or {}).items() if k2 not in settings})
     # (with "exit_wants_tunnels" the world has a single exit node, which itself asks for tunnels it can never build)
     tw = TunnelWorld(c, n=hops + 3, exits=(hops + 1,) if lonely_exit else (hops + 1, hops + 2), settings=settings)
     drops = {tuple(d) for d in case.get("drops", [])}
